@@ -159,14 +159,22 @@ def _get_fmtval_interp_strs(self: fst.FST) -> tuple[str | None, str | None, int,
     if not get_dbg and not get_val:
         return None, None, 0, 0
 
+    conts = set()  # indices of lines which end with a line continuation backslash
+
     if _HAS_FSTR_COMMENT_BUG:  # '#' characters inside strings erroneously removed as if they were comments
         lines = self._get_src(sln, scol + 1, end_ln, end_col, True)
 
         for i, l in enumerate(lines):
             m = re_line_end_cont_or_comment.search(l)  # always matches
 
-            if (g := m.group(1)) and g.startswith('#'):  # line ends in comment, nuke it
-                lines[i] = l[:m.start(1)]
+            if g := m.group(1):
+                if g.startswith('#'):  # line ends in comment, nuke it
+                    lines[i] = l[:m.start(1)]
+
+                else:  # line continuation, python joins this line with the next one
+                    lines[i] = l[:m.start(1)]
+
+                    conts.add(i)
 
     else:
         lns = set()
@@ -205,10 +213,21 @@ def _get_fmtval_interp_strs(self: fst.FST) -> tuple[str | None, str | None, int,
 
                 m = re_line_end_cont_or_comment.search(l, c)  # always matches
 
-                if (g := m.group(1)) and g.startswith('#'):  # line ends in comment, nuke it
-                    lines[i] = l[:m.start(1)]
+                if g := m.group(1):
+                    if g.startswith('#'):  # line ends in comment, nuke it
+                        lines[i] = l[:m.start(1)]
 
-    dbg_str = '\n'.join(lines) if get_dbg else None
+                    else:  # line continuation, python joins this line with the next one
+                        lines[i] = l[:m.start(1)]
+
+                        conts.add(i)
+
+    if conts:
+        join = lambda lines: ''.join(l if i in conts else f'{l}\n' for i, l in enumerate(lines))[:-1]
+    else:
+        join = '\n'.join
+
+    dbg_str = join(lines) if get_dbg else None
 
     if not get_val:
         val_str = None
@@ -221,7 +240,7 @@ def _get_fmtval_interp_strs(self: fst.FST) -> tuple[str | None, str | None, int,
 
         lines[vend_ln] = lines[vend_ln][:vend_col]
 
-        val_str = '\n'.join(lines).rstrip()
+        val_str = join(lines).rstrip()
 
     return dbg_str, val_str, end_ln, end_col
 
